@@ -304,7 +304,13 @@ def main(argv):
         srv = RefServer()
         world = World(server=lambda conn, data: [srv.feed(conn.id, data)])
         client = Client(("h", 1), socket_module=FakeSocketModule(world), allow_unicode_keys=au, encoding="utf8" if utf8 else "ascii", default_noreply=dnr, key_prefix=pfx)
-        steps = [("stats", ("items",)), ("call", {"op": "get", "k": "items"}), ("call", {"op": "incr", "k": "settings", "d": 1}), ("stats", ("settings",)),
+        # a call that is rejected half-way through its arguments must leave nothing behind for the next one
+        leftovers = [("call", {"op": "set_many", "items": [("a", b"1"), ("b", b"2"), ("bad key", b"3")], "nr": False}), ("call", {"op": "set", "k": "x", "v": b"1", "nr": False}),
+                     ("call", {"op": "set_many", "items": [("c", b"1"), ("d", 1.5)], "nr": True}), ("call", {"op": "add", "k": "y", "v": b"2", "nr": None}),
+                     ("call", {"op": "delete_many", "ks": ["a", "b", "no\nkey"], "nr": False}), ("call", {"op": "delete", "k": "a", "nr": False}),
+                     ("call", {"op": "get_many", "ks": ["a", "b c"]}), ("call", {"op": "get", "k": "a"}),
+                     ("call", {"op": "set", "k": "k", "v": b"v", "e": "soon", "nr": False}), ("call", {"op": "cas", "k": "k", "v": b"v", "cas": b"1", "nr": False})]
+        steps = leftovers + [("stats", ("items",)), ("call", {"op": "get", "k": "items"}), ("call", {"op": "incr", "k": "settings", "d": 1}), ("stats", ("settings",)),
                  ("stats", (b"sizes",)), ("call", {"op": "get_many", "ks": [b"a", b"sizes", b"b"]}), ("call", {"op": "set", "k": "items", "v": b"v", "nr": True}),
                  ("call", {"op": "delete", "k": "slabs", "nr": False}), ("stats", ("slabs",)), ("call", {"op": "gets", "k": "slabs"}),
                  ("call", {"op": "touch", "k": "items", "e": 3, "nr": False}), ("call", {"op": "get", "k": "items"})]
@@ -327,6 +333,8 @@ def main(argv):
             if want and want not in ("OUT", "NOTHING"):
                 seq_lines.append("srv.parse data=" + hx(sent))
                 seq_metas.append((case, want))
+            elif not want and sent:
+                ctx.violation("bytes were written although the arguments are illegal (in a sequence of calls on one client)", case, tags=["sequence", "sent-on-illegal"])
     # ---- the same through the wrapper classes, on every path by which they reach the inner client: a fresh HashClient, one whose server is in
     #      its retry window after a failure (a different branch of the failover code invokes the inner client), a pooled client after a failure ----
     import pymemcache.client.hash as hash_mod
